@@ -125,7 +125,10 @@ Fixpoint remove_first (x : nat) (l : list nat) : list nat :=
 
 Inductive algo := Parafac | NNParafac | NNHals | Constrained | NTDHals.
 
-(* `if fixed_modes == list(range(ndim)): return CPTensor((weights, factors))`  -- only in parafac *)
+(* `if set(fixed_modes) == set(range(ndim)): return CPTensor((weights, factors))`  -- only in parafac; a set comparison since
+   commit adc0083 (before: `fixed_modes == list(range(ndim))`, which recognised only the list in increasing order) *)
+Definition names_every_mode (fixed : list nat) (n : nat) : bool :=
+  forallb (fun i => memb i fixed) (seq 0 n) && forallb (fun m => Nat.ltb m n) fixed.
 Definition shortcut (a : algo) : bool := match a with Parafac => true | _ => false end.
 (* `if ndim - 1 in fixed_modes: warn; fixed_modes.remove(ndim - 1)`  -- everywhere but HALS-CP *)
 Definition drops_last (a : algo) : bool := match a with NNHals => false | _ => true end.
@@ -221,7 +224,7 @@ Section Skel.
     end.
 
   Definition run (a : algo) (n : nat) (fixed : list nat) (budget : nat) (tol : bool) (s : st) : res st :=
-    if shortcut a && list_eqb fixed (seq 0 n) then Ok s
+    if shortcut a && names_every_mode fixed n then Ok s
     else let ml := modes_list a n fixed in
          if empty_returns a && Nat.eqb (length ml) 0 then Ok s
          else if needs_mode a tol && Nat.ltb 0 budget && Nat.eqb (length ml) 0 then Err
@@ -231,7 +234,7 @@ Arguments st : clear implicits.
 
 (* the set of modes a run may have assigned (what the harness observes as "bytes changed") *)
 Definition touched (a : algo) (n : nat) (fixed : list nat) (budget : nat) (tol : bool) : res (list nat) :=
-  if shortcut a && list_eqb fixed (seq 0 n) then Ok []
+  if shortcut a && names_every_mode fixed n then Ok []
   else let ml := modes_list a n fixed in
        if empty_returns a && Nat.eqb (length ml) 0 then Ok []
        else if needs_mode a tol && Nat.ltb 0 budget && Nat.eqb (length ml) 0 then Err
